@@ -1049,6 +1049,55 @@ func runC12(w *World, r *Report) {
 		})
 	}
 
+	// "peer P is informed" is looked up by the address a connection is registered under: that address must be the one the
+	// registering node proved to own, and a registration touches no other node's entry
+	r.rule("peer-entry-keyed-by-verified-address", "every peer-table write reachable from Announce / Discover uses as key the PublicAddress of the request whose signature was verified (a registration neither adds nor removes an entry under another address)", 2)
+	{
+		var tableWrites []tableAccess
+		for _, ti := range collectTables(w, "gossip") {
+			if strings.HasPrefix(ti.sp.tn, "gossip.") {
+				for _, a := range ti.tf.accs {
+					if a.write {
+						tableWrites = append(tableWrites, a)
+					}
+				}
+			}
+		}
+		for _, hn := range []string{"Announce", "Discover"} {
+			h := w.Func("gossip", "gossiper", hn)
+			if h == nil || len(h.Params) < 3 {
+				continue
+			}
+			cd := h.Params[2].Name()
+			reach := reachableFuncs(w, h)
+			n, bad := 0, ""
+			for _, a := range tableWrites {
+				fn := a.in.Parent()
+				if !reach[fn] {
+					continue
+				}
+				var key ssa.Value
+				switch x := a.in.(type) {
+				case *ssa.MapUpdate:
+					key = x.Key
+				case *ssa.Call:
+					if b, ok := x.Call.Value.(*ssa.Builtin); ok && b.Name() == "delete" && len(x.Call.Args) == 2 {
+						key = x.Call.Args[1]
+					}
+				}
+				if key == nil {
+					bad += fmt.Sprintf(" %s of the whole table in %s at %s;", a.what, shortFn(fn), lineOf(w, a.at))
+					continue
+				}
+				n++
+				if !keyIsRequestAddress(w, fn, key, h, cd, reach, 3) {
+					bad += fmt.Sprintf(" %s under key %s in %s at %s;", a.what, pathOf(key), shortFn(fn), lineOf(w, a.at))
+				}
+			}
+			r.check(n > 0 && bad == "", "peer-entry-keyed-by-verified-address", hn, w.Pos(h.Pos()), "a registration writes only the entry of the address it verified", bad)
+		}
+	}
+
 	// the set decides by membership: "peer P is informed" is P's own valid signature being in the set, never the number
 	// of valid signatures (anyone can mint keys and sign the statement for them)
 	r.rule("set-decides-by-membership", "no branch depends on the size of the verified gossiper set: the set is consulted by key lookup, extended by the node's own entry and turned into the forwarded list", 1)
@@ -1136,7 +1185,6 @@ func verifiedSetValue(w *World, v ssa.Value, fn *ssa.Function, depth int) bool {
 	return ok && n > 0
 }
 
-
 // membershipNotEditedByForwarding: no write of the peer table (update, delete, clear, replacement — aliases followed) is
 // reachable, through calls, go statements and function literals, from the functions that carry items: the gossip
 // handlers, the two origin loops, the forward helpers and the missing-parent fetch.
@@ -1181,7 +1229,6 @@ func membershipNotEditedByForwarding(w *World, r *Report, rule string) {
 		r.check(bad == "", rule, name, w.Pos(fn.Pos()), "carrying an item never edits the membership", "reachable from "+name+":"+bad)
 	}
 }
-
 
 // flowsToBranch: does value v (through arithmetic, comparisons, conversions, φ, helper parameters and helper results)
 // reach the condition of a branch? Returns the branch.
@@ -1273,7 +1320,6 @@ func flowsToBranch(w *World, v ssa.Value, depth int, seen map[ssa.Value]bool) ss
 	return nil
 }
 
-
 // branchChangesEffects: the two sides of the branch differ in what they can do besides logging — the calls (other than
 // to the logger and to fmt) reachable from one successor, before control comes back to the test, are not those
 // reachable from the other; or one side leaves the function and the other does not.
@@ -1315,7 +1361,6 @@ func branchChangesEffects(at ssa.Instruction) bool {
 	return sig(b.Succs[0]) != sig(b.Succs[1])
 }
 
-
 // malformedEdges: the edges of fn taken because the entry named member is malformed — nil, a wrong field length, or
 // the verdict of a helper that only looks at the shape of the entry.
 func malformedEdges(fn *ssa.Function, member string) []Edge {
@@ -1355,4 +1400,43 @@ func malformedEdges(fn *ssa.Function, member string) []Edge {
 		}
 	}
 	return cut
+}
+
+// keyIsRequestAddress: key (in fn) is the PublicAddress of handler h's request parameter cd — directly, or because fn is
+// a helper whose parameter receives it at every call site that h can reach.
+func keyIsRequestAddress(w *World, fn *ssa.Function, key ssa.Value, h *ssa.Function, cd string, reach map[*ssa.Function]bool, depth int) bool {
+	p := pathOf(key)
+	if fn == h {
+		return p == cd+".PublicAddress"
+	}
+	if depth <= 0 {
+		return false
+	}
+	prm, ok := baseOf(key).(*ssa.Parameter)
+	if !ok || prm.Parent() != fn {
+		return false
+	}
+	rest := strings.TrimPrefix(p, prm.Name())
+	sites := 0
+	for _, cs := range staticCallers(w, fn) {
+		if !reach[cs.Parent()] {
+			continue
+		}
+		sites++
+		okSite := false
+		for k, q := range fn.Params {
+			if q == prm && k < len(cs.Common().Args) {
+				arg := cs.Common().Args[k]
+				if rest == "" {
+					okSite = keyIsRequestAddress(w, cs.Parent(), arg, h, cd, reach, depth-1)
+				} else if cs.Parent() == h {
+					okSite = pathOf(arg)+rest == cd+".PublicAddress"
+				}
+			}
+		}
+		if !okSite {
+			return false
+		}
+	}
+	return sites > 0
 }
